@@ -2,6 +2,7 @@ import FimVerif.Proofs.Lemmas.C20Lock
 import FimVerif.Proofs.Lemmas.C20Sched
 import FimVerif.Proofs.Lemmas.C20Fine
 import FimVerif.Generated.LockCfg
+import FimVerif.Model.ImportEntry
 /-!
 # C20 — store lock discipline and identifier allocation under concurrent use
 
@@ -439,5 +440,29 @@ theorem double_release_counterexample :
     finished' 3 s = true ∧ ¬ (s.sh.nodes.map Node.key).Nodup ∧ s.relErr = true ∧
     lockRun (progs.getD 0 []) = none := by
   decide
+
+/-! ### identifier allocation for imported graphs: imports that name no graph id -/
+
+/-- what `gen/importids.py` observes on both in-memory importers: `import_graph_from_string` / `import_graph_from_file` called
+twice without a graph id (two documents; two paths, and one path rewritten in between) come back as two graphs with ids of their
+own — non-empty, different from each other and from an id in use — each holding its own document's nodes; called with a graph id
+they file the document under that id.  These are the rows the lowering of importer calls to graph indices of the interleaving
+model assumes (`ImportEntry.modelIdless`, `ImportEntry.modelNamed`). -/
+theorem idless_imports_get_fresh_ids :
+    Gen.ImportIds.idlessFresh = ImportEntry.modelIdless ∧ Gen.ImportIds.namedTarget = ImportEntry.modelNamed := by decide
+
+/-- under that freshness (`ImportEntry.Fresh`: the generated ids are pairwise distinct and none is in use) the imports that
+name no graph id are graphs of their own in the model — pairwise different targets, different from every caller-chosen id in
+use, whatever the documents are — so `each_graph_exact` / `each_graph_exact_with_deletes` speak of each of them separately:
+each ends up with exactly the nodes of its own document -/
+theorem idless_imports_are_graphs_of_their_own {generated inUse : List String} (h : ImportEntry.Fresh generated inUse) :
+    (∀ (i j : Nat) (hi : i < generated.length) (hj : j < generated.length), i ≠ j → ∀ di dj : String,
+      ImportEntry.target .idless di generated[i] ≠ ImportEntry.target .idless dj generated[j]) ∧
+    (∀ (i : Nat) (hi : i < generated.length) (g : String), g ∈ inUse → ∀ d d' f : String,
+      ImportEntry.target .idless d generated[i] ≠ ImportEntry.target (.named g) d' f) :=
+  ⟨fun _ _ hi hj hij di dj => ImportEntry.idless_targets_distinct h hi hj hij di dj,
+   fun _ hi g hg d d' f => ImportEntry.idless_target_not_named h hi g hg d d' f⟩
+
+example : ImportEntry.Fresh ["6f1c", "a2d0"] ["graph-1", "graph-2"] := by decide
 
 end FimVerif.C20
